@@ -926,6 +926,13 @@ def _ctx_bodies(g):
         if fm:
             yield (grp, (fm, None))
             yield ((a, None), grp, (fm, None), (b, None))
+    # a tag number that is a plain message-level field BEFORE the group and also a member inside its items
+    # (ClOrdID before NoOrders, ExecID before NoExecs ...): both uses must survive
+    plain = [t for t in TABLE.rg[g] if t not in TABLE.rg]
+    for m in dict.fromkeys(plain[:1] + plain[1:2] + plain[-1:]):
+        for inst in rep_instances(g, 5):
+            yield ((m, None), (g, inst))
+            yield ((a, None), (m, None), (g, inst), (b, None))
 
 
 def _sib_bodies(g):
